@@ -197,11 +197,18 @@ func traceOf(rec *Rec) traceInfo {
 		calls = calls[:maxCalls]
 	}
 	ti.Trace = vlib.List(calls)
+	if !ti.Truncated {
+		rec.finish() // final condition (rule 13): only a complete trace has one
+	}
 	for _, v := range rec.shadow() {
 		if ti.ByRule[v.Rule] == nil {
 			ti.Rules = append(ti.Rules, v.Rule)
 		}
-		ti.ByRule[v.Rule] = append(ti.ByRule[v.Rule], fmt.Sprintf("call %d %s: %s [%s]", v.I, rec.Ev[v.I].String(), v.What, v.Site))
+		at := "end of trace"
+		if v.I < len(rec.Ev) {
+			at = rec.Ev[v.I].String()
+		}
+		ti.ByRule[v.Rule] = append(ti.ByRule[v.Rule], fmt.Sprintf("call %d %s: %s [%s]", v.I, at, v.What, v.Site))
 	}
 	sort.Ints(ti.Rules)
 	return ti
